@@ -3,6 +3,7 @@ from __future__ import annotations
 
 import json
 import random
+from fractions import Fraction
 
 import numpy as np
 import xarray as xr
@@ -61,6 +62,80 @@ def float_order_sensitive(pipe):
     return pipe["matching_cost"]["matching_cost_method"] == "zncc" and "aggregation" in pipe
 
 
+def depth_scene(rng):
+    """two regions of different depth and disturbed spots (seed C13-5): every line is a permutation of distinct
+    radiometries, so matches are unambiguous; columns < bnd have true disparity d1, columns beyond have d2 << d1; at each
+    spot p (in the first region) the left pixel is disturbed so that wta gives it disparity 0, cross-checking invalidates
+    it (|0 + (-d1)| > 1), and the only right pixel that points back at it sits at p + d2.  A crop of the first region
+    never sees a valid disparity near d2: whatever the step derives from "the disparities present in the map" differs
+    between the crop and the whole image."""
+    nprng = np.random.default_rng(rng.randrange(1 << 30))
+    rows = rng.choice([5, 6, 8])
+    cols = rng.choice([96, 110, 120])
+    bnd = rng.choice([64, 72, 80])
+    d1 = rng.choice([-2, -2, -3])
+    d2 = d1 - rng.choice([3, 4])
+    lo, hi = d2, rng.choice([1, 2])
+    line_l = (10 * nprng.permutation(cols) + 100).astype(np.int64)
+    line_r = (10 * nprng.permutation(cols) + 5000).astype(np.int64)  # matches nothing
+    line_r[0:bnd] = line_l[-d1:bnd - d1]
+    line_r[bnd:cols + d2] = line_l[bnd - d2:cols]
+    spots = []
+    p = rng.randrange(24, 30)
+    while p < bnd - 26:
+        b = line_l[p - d1]
+        line_r[p + d1] = line_l[p + d1 - 1] + 4  # the right pixel that matched left p no longer does
+        line_l[p] = b + 1                        # left p: closest right value at disparity 0
+        line_r[p + d2] = b + 3                   # right p + d2: closest left value is left p (right disparity -d2)
+        spots.append(p)
+        p += rng.randrange(14, 22)
+    imgs = []
+    for side, line, with_disp in (("L", line_l, True), ("R", line_r, False)):
+        ds = xr.Dataset({"im": (["row", "col"], np.tile(line, (rows, 1)).astype(np.float32))},
+                        coords={"row": np.arange(rows), "col": np.arange(cols)})
+        if with_disp:
+            d = np.stack([np.full((rows, cols), lo, dtype=np.float32), np.full((rows, cols), hi, dtype=np.float32)])
+            ds["disparity"] = xr.DataArray(d, dims=["band_disp", "row", "col"], coords={"band_disp": ["min", "max"]})
+        ds.attrs = {"no_data_img": -9999, "valid_pixels": 0, "no_data_mask": 1, "crs": None, "transform": None,
+                    "disparity_source": [int(lo), int(hi)] if with_disp else None, "side": side}
+        imgs.append(ds)
+    return imgs[0], imgs[1], rows, cols, lo, hi, bnd, spots
+
+
+HYPS = {"left": 0}
+
+
+def eval_hypotheses(ctx, report, case, left, right, cl, cr, pipe, r0, c0):
+    """the decidable hypotheses of `run_crop_eq_whole` (Model/PipelineRun.lean: runOKB, cropRunB, leftInIntervalB,
+    docConeOKB; both model runs return) on a real (whole, crop) input of the differential, and the theorem's conclusion
+    on the crop pixels whose documented cone lies in the crop (`run_crop_eq_whole_of_B`)"""
+    if "aggregation" in pipe:
+        report.count("hyps_skipped_cbca_model_too_slow_on_these_sizes")
+        return
+    HYPS["left"] -= 1
+    h = ctx.lean.call("C13.hyps", whole=model_payload(left, right, pipe), crop=model_payload(cl, cr, pipe), r0=r0, c0=c0,
+                      spots=[[1, 1]])
+    report.count("hyps_real_cases_evaluated")
+    names = ("run_ok_whole", "run_ok_crop", "crop_run", "same_cfg", "returns_whole", "returns_crop", "left_in_interval_whole",
+             "left_in_interval_crop", "doc_cone_ok")
+    for k in names:
+        if h[k]:
+            report.count("hyps_true_" + k)
+    if not h["spot_ok"]:
+        report.disagree("driver: staged evaluation differs from the literal fullRunR", case, None, None)
+    if all(h[k] for k in names):
+        report.count("hyps_real_cases_satisfying_all_hypotheses_of_run_crop_eq_whole")
+        report.count("hyps_pixels_with_cone_in_crop", h["pixels_in_cone"])
+        report.count("hyps_pixels_model_crop_equals_model_whole", h["pixels_equal"])
+        if h["pixels_in_cone"]:
+            report.hit("model_run_crop_eq_whole_hypotheses_hold")
+        if h["pixels_equal"] != h["pixels_in_cone"]:
+            # impossible while the theorem builds: the model evaluated by the driver is the one the theorem is about
+            report.disagree("model run contradicts run_crop_eq_whole_of_B", dict(case, crop=[r0, c0]), None, h["first_diff"])
+    elif not (h["returns_whole"] and h["returns_crop"]):
+        report.count("hyps_case_a_refinement_raises")
+
+
 def run_whole_and_crops(ctx, report, gs, label, wide=False, force=None, tall=False):
     rng = random.Random(gs)
     if tall:
@@ -76,6 +151,13 @@ def run_whole_and_crops(ctx, report, gs, label, wide=False, force=None, tall=Fal
             pipe["refinement"] = {"refinement_method": rng.choice(["vfit", "quadratic"])}
         rr = rc = (w - 1) // 2
         cross = False
+    elif force == "depth_regions":
+        left, right, rows, cols, lo, hi, bnd, spots = depth_scene(rng)
+        pipe = {"matching_cost": {"matching_cost_method": "sad", "window_size": 1, "subpix": 1},
+                "disparity": {"disparity_method": "wta", "invalid_disparity": rng.choice([-9999, "NaN"])},
+                "validation": {"validation_method": "cross_checking_accurate", "cross_checking_threshold": 1.0}}
+        rr = rc = 0
+        cross = True
     elif wide:
         # a strip several internal processing blocks long (100 / 50 pixels) with a large no-data area: a tile starting
         # past the area must give the same values as the whole strip
@@ -152,6 +234,11 @@ def run_whole_and_crops(ctx, report, gs, label, wide=False, force=None, tall=Fal
             r0 = rng.choice([rows - 20, rows - 27, rows - 34, 40])
         c0 = rng.choice([0, 0, 1, 2, 3, 4]) if not wide else rng.choice([104, 108, 112, 117, 60])
         c1 = rng.choice([cols, cols, cols - 1, cols - 2, cols - 3])
+        if force == "depth_regions":
+            # crops of the first region only (the region of the other depth stays outside)
+            r0, r1 = 0, rows
+            c0 = rng.choice([0, 6, 13])
+            c1 = bnd - rng.choice([10, 14, 19])
         if r1 - r0 < 2 * rr + 3 or c1 - c0 < 2 * rc + 3 + (ext_hi - ext_lo):
             continue
         keep = rng.random() < 0.5
@@ -163,6 +250,8 @@ def run_whole_and_crops(ctx, report, gs, label, wide=False, force=None, tall=Fal
             continue
         crop = pl.products(c_l)
         n_crops += 1
+        if ctx.lean is not None and not wide and not tall and force != "depth_regions" and modelled(pipe) and HYPS["left"] > 0:
+            eval_hypotheses(ctx, report, case, left, right, cl, cr, pipe, r0, c0)
         for r in range(r0, r1):
             for c in range(c0, c1):
                 # cone of (r, c) clipped to the image must lie inside the crop
@@ -215,13 +304,313 @@ def run_whole_and_crops(ctx, report, gs, label, wide=False, force=None, tall=Fal
                 sample={"pipeline": pipe, "shape": [rows, cols], "disp": [lo, hi], "crops": n_crops, "pixels": n_pixels})
 
 
+# --------------------------------------------------------------------------------------------
+# composed model run (Model/PipelineRun.lean: fullRun / fullRunCbca) vs the real pandora.run
+# --------------------------------------------------------------------------------------------
+EXACT_MEASURES = ("sad", "ssd", "census")
+_SRC = {}
+
+
+def source_variants():
+    """what the model is configured with besides the pipeline: read in the source text by the translators (the block
+    splits T3, the refinement / cross-checking variants T11, the "minimum 1" rule of cbca), documented literals when a
+    translator fails (already reported by build_and_audit)"""
+    if _SRC:
+        return _SRC
+    lit = {"startY": 100, "stepY": 100, "stopYDim": 0, "startX": 100, "stepX": 100, "stopXDim": 1}
+    blocks = {"wtaArgmin": dict(lit, beginY=["lit", 0], beginX=["lit", 0]),
+              "median": dict(lit, beginY=["half", "", 2], beginX=["half", "", 2])}
+    try:
+        from translator import gen_blocks
+
+        blocks = gen_blocks.extract()
+    except Exception:  # pylint: disable=broad-except
+        pass
+    variant = {"flat": False, "or": False, "ends": False}
+    cc = "asis"
+    try:
+        from translator import gen_refine_cc
+
+        d = gen_refine_cc.extract()
+        variant = {"flat": bool(d["quadratic_flat_guard"]), "or": bool(d["flag_update_is_or"]), "ends": bool(d["end_test_on_index"])}
+        cc = "rule" if d["outside_searched"] else ("or" if d["outside_is_or"] else "asis")
+    except Exception:  # pylint: disable=broad-except
+        pass
+    rule = "loopVar"
+    try:
+        from translator import gen_cbca
+
+        rule = gen_cbca.extract()["min_rule"]
+    except Exception:  # pylint: disable=broad-except
+        pass
+    import pandora.constants as cst
+
+    _SRC.update(blocks=blocks, variant=variant, cc=cc, rule=rule, invalid_mask=int(cst.PANDORA_MSK_PIXEL_INVALID))
+    return _SRC
+
+
+def split_of(name, size):
+    d = source_variants()["blocks"][name]
+    out = {k: d[k] for k in ("startY", "stepY", "stopYDim", "startX", "stepX", "stopXDim")}
+    for k in ("beginY", "beginX"):
+        out[k] = d[k][1] if d[k][0] == "lit" else size // d[k][2]
+    return out
+
+
+def modelled(pipe):
+    """is the pipeline one the composed model run covers: exact-cost measure, optional cbca, wta, optional refinement,
+    optional median filter, cross-checking"""
+    if pipe["matching_cost"]["matching_cost_method"] not in EXACT_MEASURES:
+        return False
+    if set(pipe) - {"matching_cost", "aggregation", "disparity", "refinement", "filter", "validation"}:
+        return False
+    if pipe.get("filter", {"filter_method": "median"})["filter_method"] != "median":
+        return False
+    return "validation" in pipe and "interpolated_disparity" not in pipe["validation"]
+
+
+def model_payload(left, right, pipe):
+    """the input of `C13.run` for a pair of datasets and a pipeline"""
+    src = source_variants()
+    mc = pipe["matching_cost"]
+    rows, cols = left.sizes["row"], left.sizes["col"]
+    grid = lambda a: [[core.enc(float(v)) for v in row] for row in np.asarray(a)]
+    msk = lambda ds: [[int(v) for v in row] for row in ds["msk"].data] if "msk" in ds else None
+    inv = pipe["disparity"].get("invalid_disparity", -9999)
+    fs = int(pipe["filter"].get("filter_size", 3)) if "filter" in pipe else 0
+    ref = None
+    if "refinement" in pipe:
+        ref = {"method": pipe["refinement"]["refinement_method"], "variant": dict(src["variant"])}
+    agg = None
+    if "aggregation" in pipe:
+        a = pipe["aggregation"]
+        agg = {"dist": int(a["cbca_distance"]), "I": core.enc(float(a["cbca_intensity"])), "rule": src["rule"]}
+    return {
+        "meas": mc["matching_cost_method"], "w": int(mc["window_size"]), "sp": int(mc["subpix"]), "rows": rows, "cols": cols,
+        "L": [grid(left["im"].data)], "R": [grid(right["im"].data)], "mL": msk(left), "mR": msk(right),
+        "valid": int(left.attrs["valid_pixels"]), "nodata": int(left.attrs["no_data_mask"]),
+        "dmin": [[int(v) for v in row] for row in left["disparity"].sel(band_disp="min").data],
+        "dmax": [[int(v) for v in row] for row in left["disparity"].sel(band_disp="max").data],
+        "invalid": "nan" if (isinstance(inv, str) or inv != inv) else core.enc(float(inv)),
+        "refine": ref, "fs": fs, "invalid_mask": src["invalid_mask"],
+        "split_wta": split_of("wtaArgmin", 0), "split_median": split_of("median", fs),
+        "cbca": agg,
+        "cc": {"threshold": core.enc(float(pipe["validation"]["cross_checking_threshold"])), "offset": (int(mc["window_size"]) - 1) // 2,
+               "variant": src["cc"]},
+    }
+
+
+TOL = 1e-6
+
+
+def cmp_cells(impl, model, exact):
+    """compare an implementation array with a model grid (wire values).  Returns (n_cells, n_exact, first difference);
+    `exact`: the float must be the model's rational; otherwise within TOL·max(1, |model|) (float32 quotients)"""
+    n = n_exact = 0
+    for idx in np.ndindex(impl.shape):
+        v = float(impl[idx])
+        m = model
+        for i in idx:
+            m = m[i]
+        m = core.dec(m)
+        n += 1
+        if isinstance(m, float):  # nan
+            if v == v:
+                return n, n_exact, {"index": list(idx), "impl": core.enc(v), "model": "nan"}
+            n_exact += 1
+            continue
+        if v != v or v in (float("inf"), float("-inf")):
+            return n, n_exact, {"index": list(idx), "impl": core.enc(v), "model": core.enc(m)}
+        if Fraction(v) == m or float(np.float32(float(m))) == v:
+            n_exact += 1
+        elif exact or abs(v - float(m)) > TOL * max(1.0, abs(float(m))):
+            return n, n_exact, {"index": list(idx), "impl": core.enc(v), "model": core.enc(m)}
+    return n, n_exact, None
+
+
+def cmp_masks(impl, model):
+    a = np.asarray(impl).astype(np.int64)
+    b = np.asarray(model, dtype=np.int64)
+    if a.shape != b.shape:
+        return a.size, {"shape": [list(a.shape), list(b.shape)]}
+    d = np.argwhere(a != b)
+    if len(d) == 0:
+        return a.size, None
+    i = tuple(int(v) for v in d[0])
+    return a.size, {"index": list(i), "impl": int(a[i]), "model": int(b[i]), "count": int(len(d))}
+
+
+def near_threshold(model_side, other_side, threshold):
+    """pixels whose cross-checking decision |dL + dR(x + rint dL)| > threshold is within TOL of equality on values that
+    are not float32 numbers (thirds of a refinement...): the float run may fall on the other side; they are excused"""
+    out = set()
+    f = model_side["filter"]
+    g = other_side["filter"]
+    if not isinstance(f, dict) or not isinstance(g, dict):
+        return out
+    for r, row in enumerate(f["disp"]):
+        for c, w in enumerate(row):
+            d = core.dec(w)
+            if isinstance(d, float):
+                continue
+            q = c + int(np.rint(float(d)))
+            if not 0 <= q < len(row):
+                continue
+            e = core.dec(g["disp"][r][q])
+            if isinstance(e, float):
+                continue
+            dyadic = all(float(np.float32(float(v))) == v for v in (d, e))
+            if not dyadic and abs(abs(float(d + e)) - threshold) <= 10 * TOL:
+                out.add((r, c))
+    return out
+
+
+def gen_composed(rng, cbca=None):
+    rows, cols = rng.choice([(7, 11), (8, 12), (9, 10), (6, 14), (10, 13)])
+    lo = rng.choice([-3, -2, -1, 0, 1])
+    hi = lo + rng.choice([1, 2, 3])
+    meth = rng.choice(EXACT_MEASURES)
+    w = rng.choice([3, 5]) if meth == "census" else rng.choice([1, 3, 3, 5])
+    pipe = {"matching_cost": {"matching_cost_method": meth, "window_size": w, "subpix": rng.choice([1, 1, 2, 4])}}
+    if cbca if cbca is not None else rng.random() < 0.3:
+        # the cbca model recomputes supports and running sums at every cell: small scenes
+        rows, cols = rng.choice([(6, 9), (7, 10), (6, 11)])
+        hi = min(hi, lo + 2)
+        pipe["matching_cost"]["subpix"] = rng.choice([1, 1, 2])
+        pipe["aggregation"] = {"aggregation_method": "cbca", "cbca_distance": rng.choice([2, 3, 5]),
+                               "cbca_intensity": rng.choice([5.0, 10.0, 30.0])}
+    pipe["disparity"] = {"disparity_method": "wta", "invalid_disparity": rng.choice([-9999, "NaN", -9999, 17])}
+    if rng.random() < 0.8:
+        pipe["refinement"] = {"refinement_method": rng.choice(["vfit", "vfit", "quadratic"])}
+    if rng.random() < 0.85:
+        pipe["filter"] = {"filter_method": "median", "filter_size": rng.choice([3, 3, 5])}
+    pipe["validation"] = {"validation_method": "cross_checking_accurate", "cross_checking_threshold": rng.choice([1.0, 1.0, 0.0, 0.25, 2.0])}
+    return rows, cols, lo, hi, pipe
+
+
+def composed_vs_run(ctx, report, gs, label, cbca=None):
+    """one pair through the real `pandora.run` (check_conf + run, every intermediate product captured) and through the
+    composed run of the step models; every stage compared cell by cell"""
+    rng = random.Random(gs)
+    rows, cols, lo, hi, pipe = gen_composed(rng, cbca)
+    left, right = pl.make_pair(rng, rows, cols, lo, hi, masks=rng.random() < 0.45, smooth=rng.random() < 0.6,
+                               vmax=rng.choice([12, 40, 40]))
+    if rng.random() < 0.3:
+        # a per-pixel interval grid inside [lo, hi]
+        nprng = np.random.default_rng(gs)
+        a = nprng.integers(lo, hi + 1, size=(rows, cols))
+        b = nprng.integers(lo, hi + 1, size=(rows, cols))
+        left["disparity"].data[0] = np.minimum(a, b)
+        left["disparity"].data[1] = np.maximum(a, b)
+        report.count("composed_interval_grid")
+    if rng.random() < 0.4:
+        # ROI-offset coordinates
+        r0, c0 = rng.randrange(1, 40), rng.randrange(1, 60)
+        left = left.assign_coords(row=np.arange(r0, r0 + rows), col=np.arange(c0, c0 + cols))
+        right = right.assign_coords(row=np.arange(r0, r0 + rows), col=np.arange(c0, c0 + cols))
+        report.count("composed_roi_offset_coords")
+    case = {"label": label, "pipeline": pipe, "shape": [rows, cols], "disp": [lo, hi]}
+    payload = model_payload(left, right, pipe)
+    res = pl.run_pipeline_traced(left.copy(deep=True), right.copy(deep=True), pipe)
+    # the driver evaluates the stages once each; on these pixels it also evaluates the literal definitions
+    # `fullRunR` / `afterFilterR` (which recompute every input at every cell) and compares
+    payload["spots"] = [[rows // 2, cols // 2], [rng.randrange(rows), rng.randrange(cols)]]
+    model = ctx.lean.call("C13.run", **payload)
+    report.count("composed_runs")
+    report.count("composed_literal_fullRunR_pixels", model["spots"])
+    if not model["spot_ok"]:
+        report.disagree("driver: staged evaluation differs from the literal fullRunR", case, None, payload["spots"])
+    report.count("composed_measure_" + pipe["matching_cost"]["matching_cost_method"])
+    for name in pipe:
+        report.count("composed_step_" + name)
+    if "refinement" in pipe:
+        report.count("composed_refinement_" + pipe["refinement"]["refinement_method"])
+    steps = dict(res["steps"])
+    bad = []
+
+    def note(stage, side, what, diff):
+        if diff is not None:
+            bad.append({"stage": stage, "side": side, "what": what, "diff": diff})
+
+    def cells(stage, side, impl, grid, exact):
+        n, n_exact, diff = cmp_cells(impl, grid, exact)
+        report.count(f"composed_cells_{stage}", n)
+        if not exact:
+            report.count(f"composed_cells_{stage}_exactly_float32_of_model", n_exact)
+        note(stage, side, "values", diff)
+
+    def masks(stage, side, impl, grid, excused=()):
+        n, diff = cmp_masks(impl, grid)
+        if diff is not None and "index" in diff and excused:
+            a = np.asarray(impl).astype(np.int64)
+            b = np.asarray(grid, dtype=np.int64)
+            rest = [tuple(int(v) for v in i) for i in np.argwhere(a != b) if tuple(int(v) for v in i) not in excused
+                    or ((int(a[tuple(i)]) ^ int(b[tuple(i)])) & ~0x300)]
+            report.count("composed_cross_check_pixels_excused_float_tie", int(len(np.argwhere(a != b))) - len(rest))
+            diff = None if not rest else {"index": list(rest[0]), "impl": int(a[rest[0]]), "model": int(b[rest[0]]), "count": len(rest)}
+        report.count(f"composed_flags_{stage}", n)
+        note(stage, side, "flags", diff)
+
+    raised = "error" in res
+    for side in ("left", "right"):
+        M = model[side]
+        s = steps.get("matching_cost", {}).get(side)
+        if s is not None:
+            cells("matching_cost", side, s["cv"], M["mc"], True)
+            masks("matching_cost", side, s["mask"], M["flags"])
+        s = steps.get("aggregation", {}).get(side)
+        if s is not None:
+            cells("aggregation", side, s["cv"], M["cv"], False)
+        s = steps.get("disparity", {}).get(side)
+        if s is not None:
+            cells("disparity", side, s["map"], M["wta"], True)
+            masks("disparity", side, s["mask"], M["flags"])
+        for stage, key in (("refinement", "refine"), ("filter", "filter")):
+            if stage not in pipe:
+                continue
+            s = steps.get(stage, {}).get(side)
+            if M[key] == "raises":
+                if s is not None:
+                    note(stage, side, "raises", {"impl": "returned", "model": "raises"})
+                continue
+            if s is None:  # the real run raised at or before this step: judged below
+                continue
+            # vfit / quadratic shifts and medians of an even number of values are float32 quotients
+            cells(stage, side, s["map"], M[key]["disp"], False)
+            masks(stage, side, s["mask"], M[key]["flag"])
+        s = steps.get("validation", {}).get(side)
+        if s is not None and M["cc"] != "raises":
+            other = model["right" if side == "left" else "left"]
+            excused = near_threshold(M, other, float(pipe["validation"]["cross_checking_threshold"])) if "refinement" in pipe or "aggregation" in pipe else ()
+            cells("validation", side, s["map"], M["filter"]["disp"], False)
+            masks("validation", side, s["mask"], M["cc"]["mask"], excused)
+        elif s is not None:
+            note("validation", side, "raises", {"impl": "returned", "model": "raises"})
+    if raised:
+        report.count(f"composed_run_raises_{res['error']}_at_{res['at']}")
+        model_raises = any(model[sd][k] == "raises" for sd in ("left", "right") for k in ("refine",))
+        if not (res["at"] == "refinement" and model_raises):
+            bad.append({"stage": res["at"], "side": "-", "what": "raises", "diff": {"impl": res["error"], "model": "returned"}})
+    if bad:
+        report.disagree("composed model run vs pandora.run: " + bad[0]["stage"] + " " + bad[0]["what"], dict(case, first=bad[0]),
+                        bad[0]["diff"].get("impl"), bad[0]["diff"].get("model"))
+        report.count("composed_runs_disagreeing")
+    report.case(key=json.dumps(["composed", gs, pipe], sort_keys=True), nontrivial=not raised,
+                sample={"composed": True, "pipeline": pipe, "shape": [rows, cols], "disp": [lo, hi]})
+    return not bad
+
+
 def run(ctx, report, status):
     report.rule = (
         "real differential: a local pipeline (matching cost, optional cbca, wta, optional refinement / median or bilateral filter / "
         "cross-checking) on a whole 12-16 x 20-26 pair and on crops at every offset parity (array coordinates reset or kept), "
         "disparity and flags compared bit for bit on the pixels whose dependency cone (clipped to the image) lies inside the crop; "
-        "plus wide strips crossing the 100-pixel blocks, cbca with no-data patches and tall 12-bit zncc pairs (crops far down the image); plus the vertically flipped pair; non-trivial = at least one cone-interior pixel compared; distinct by (seed, pipeline)"
+        "plus wide strips crossing the 100-pixel blocks, cbca with no-data patches and tall 12-bit zncc pairs (crops far down the image); plus the vertically flipped pair; non-trivial = at least one cone-interior pixel compared; distinct by (seed, pipeline); plus the composed run of the step models (Lean: fullRun / fullRunCbca) against the real pandora.run on 6-10 x 9-14 pairs (sad/ssd/census, optional cbca, wta, optional vfit/quadratic, optional median, cross-checking; masks, per-pixel interval grids, ROI-offset coordinates), every intermediate product compared cell by cell"
     )
+    HYPS["left"] = ctx.n(40, 400)
+    src = source_variants()
+    report.notes.append(f"composed model run configured from the source: refinement variant {src['variant']}, cross-checking "
+                        f"variant {src['cc']}, cbca minimum rule {src['rule']}")
     for name, case in core.load_corpus(PROP):
         run_whole_and_crops(ctx, report, case["gen_seed"], "corpus:" + name, force=case.get("force"))
     for i in range(ctx.n(25, 300)):
@@ -241,11 +630,29 @@ def run(ctx, report, status):
         report.count("tall_12bit_zncc")
 
 
+    for i in range(ctx.n(4, 30)):
+        gs = ctx.rng.randrange(1 << 30)
+        run_whole_and_crops(ctx, report, gs, f"gen_seed={gs},depth_regions", force="depth_regions")
+        report.count("depth_regions_with_disturbed_spots")
+    # the composed run of the step models (Model/PipelineRun.lean) against the real pandora.run, stage by stage
+    for i in range(ctx.n(16, 160)):
+        gs = ctx.rng.randrange(1 << 30)
+        composed_vs_run(ctx, report, gs, f"gen_seed={gs},composed", cbca=False)
+    for i in range(ctx.n(4, 40)):
+        gs = ctx.rng.randrange(1 << 30)
+        composed_vs_run(ctx, report, gs, f"gen_seed={gs},composed_cbca", cbca=True)
+
+
 def search(ctx, report, status):
     sub = core.Report(PROP, ctx.tier, ctx.seed)
     for _ in range(60):
         gs = ctx.rng.randrange(1 << 30)
         run_whole_and_crops(ctx, sub, gs, f"gen_seed={gs}")
+        if sub.failures:
+            return sub.failures[0]
+    for _ in range(6):
+        gs = ctx.rng.randrange(1 << 30)
+        run_whole_and_crops(ctx, sub, gs, f"gen_seed={gs},depth_regions", force="depth_regions")
         if sub.failures:
             return sub.failures[0]
     for _ in range(6):
@@ -262,9 +669,18 @@ def replay(ctx, report, path):
     with open(path, encoding="utf-8") as f:
         data = json.load(f)
     case = data.get("input", data)
+    if "label" not in case and data.get("correspondence_disagreements"):
+        # replay of a broken correspondence: the first disagreeing case of the composed stream
+        case = data["correspondence_disagreements"][0]["case"]
     gs = int(re.search(r"gen_seed=(\d+)", case["label"]).group(1))
+    if ",composed" in case["label"]:
+        ok = composed_vs_run(ctx, report, gs, case["label"], cbca=case["label"].endswith("_cbca"))
+        for d in report.disagreements:
+            print("disagreement:", d["what"], json.dumps(d["case"], default=str)[:400], d["impl"], d["model"])
+        print("replayed: disagreements=%d" % len(report.disagreements))
+        return 0 if ok else 1
     run_whole_and_crops(ctx, report, gs, case["label"], wide=case["label"].endswith(",wide"), tall=case["label"].endswith(",tall"),
-                        force="cbca_mask" if case["label"].endswith(",cbca_mask") else None)
+                        force="cbca_mask" if case["label"].endswith(",cbca_mask") else ("depth_regions" if case["label"].endswith(",depth_regions") else None))
     for fl in report.failures:
         print("spec failure:", fl["clause"], fl["trigger"], json.dumps(fl["case"], default=str)[:300], fl["impl"])
     print("replayed: failures=%d" % len(report.failures))
